@@ -76,6 +76,12 @@ type sPeer struct {
 	kalives              int
 	closedAt             int // len(trace) when Close returned, -1 before
 	sess                 *session
+	t0                   time.Time     // start of the schedule
+	failAt               time.Time     // a connection attempt failed then (zero: none outstanding)
+	failDelay            time.Duration // documented backoff before the next dial: 0, 1s, 2s, ... 2min; reset by a success
+	streak               int
+	hadOK                bool
+	failAfterOK          int
 	done                 bool
 	refused              int
 	wantHold             int          // hold time (s) the session's OPEN must carry: configured value, 90 for nil
@@ -107,6 +113,33 @@ func (p *sPeer) log(coq, human string) {
 	p.trace = append(p.trace, coq)
 	p.human = append(p.human, human)
 }
+
+// logT logs a timed event: TAt <ms since schedule start> followed by the event
+func (p *sPeer) logT(coq, human string) {
+	ms := time.Since(p.t0).Milliseconds()
+	p.log(fmt.Sprintf("TAt %d", ms), fmt.Sprintf("t=%dms", ms))
+	p.log(coq, human)
+}
+
+// attemptFailed / attemptOK keep the documented backoff schedule of run():
+// first retry of a streak immediately, then 1 s, doubling up to 2 min; a
+// successful connect resets it.  serve() compares the next dial with it.
+func (p *sPeer) attemptFailed() {
+	if p.hadOK && p.streak == 0 {
+		p.failAfterOK++
+	}
+	p.failAt = time.Now()
+	p.failDelay = 0
+	if p.streak > 0 {
+		p.failDelay = time.Second << uint(p.streak-1)
+		if p.failDelay > 2*time.Minute {
+			p.failDelay = 2 * time.Minute
+		}
+	}
+	p.streak++
+}
+func (p *sPeer) attemptOK() { p.streak, p.failAt, p.hadOK = 0, time.Time{}, true }
+
 func (p *sPeer) fail(sig, what string) {
 	p.fails = append(p.fails, [3]string{sig, what, ""})
 }
@@ -150,7 +183,17 @@ func (p *sPeer) serve() {
 		if sc.dropAfter >= 0 {
 			pc.arm, pc.armMid = sc.dropAfter, sc.dropMid
 		}
-		p.log(fmt.Sprintf("TAccept %d", pc.id), fmt.Sprintf("accept c%d", pc.id))
+		p.logT(fmt.Sprintf("TAccept %d", pc.id), fmt.Sprintf("accept c%d", pc.id))
+		if !p.failAt.IsZero() && p.closedAt < 0 {
+			el := time.Since(p.failAt)
+			if el+500*time.Millisecond < p.failDelay {
+				p.fail("session-redials-before-backoff", fmt.Sprintf("connection %d dialled %v after a failed attempt, backoff at this point of the streak is %v", pc.id, el, p.failDelay))
+			}
+			if el > p.failDelay+800*time.Millisecond {
+				p.fail("session-redials-later-than-backoff", fmt.Sprintf("connection %d dialled %v after a failed attempt, backoff at this point of the streak is %v (a success resets it)", pc.id, el, p.failDelay))
+			}
+			p.failAt = time.Time{}
+		}
 		if p.closedAt >= 0 {
 			p.fail("session-dials-after-close", fmt.Sprintf("connection %d accepted after Close() returned", pc.id))
 		}
@@ -173,7 +216,7 @@ func (p *sPeer) handle(pc *sPeerConn, sc sConnScript) {
 	om, err := sReadMsg(c)
 	if err != nil {
 		p.mu.Lock()
-		p.log(fmt.Sprintf("TDrop %d", pc.id), fmt.Sprintf("c%d: no OPEN (%v)", pc.id, err))
+		p.logT(fmt.Sprintf("TDrop %d", pc.id), fmt.Sprintf("c%d: no OPEN (%v)", pc.id, err))
 		pc.gone = true
 		p.mu.Unlock()
 		return
@@ -207,7 +250,8 @@ func (p *sPeer) handle(pc *sPeerConn, sc sConnScript) {
 	if sc.dropInHS {
 		p.mu.Lock()
 		pc.dropped, pc.gone = true, true
-		p.log(fmt.Sprintf("TDrop %d", pc.id), fmt.Sprintf("c%d: peer drops during handshake", pc.id))
+		p.logT(fmt.Sprintf("TDrop %d", pc.id), fmt.Sprintf("c%d: peer drops during handshake", pc.id))
+		p.attemptFailed()
 		p.mu.Unlock()
 		return
 	}
@@ -242,8 +286,13 @@ func (p *sPeer) handle(pc *sPeerConn, sc sConnScript) {
 	km, err := sReadMsg(c)
 	acc := err == nil && len(km) == 19 && km[18] == 4
 	p.mu.Lock()
-	p.log(fmt.Sprintf("THandshake %d %d %s %s", pc.id, sc.asn, cBool(sc.as4), cBool(acc)),
+	p.logT(fmt.Sprintf("THandshake %d %d %s %s", pc.id, sc.asn, cBool(sc.as4), cBool(acc)),
 		fmt.Sprintf("c%d: handshake asn=%d as4=%v accepted=%v", pc.id, sc.asn, sc.as4, acc))
+	if acc {
+		p.attemptOK()
+	} else {
+		p.attemptFailed()
+	}
 	if acc {
 		pc.estab = true
 		p.cur = pc
@@ -333,7 +382,7 @@ func (p *sPeer) handle(pc *sPeerConn, sc sConnScript) {
 			p.fail("session-message-malformed", fmt.Sprintf("c%d: %x: %v", pc.id, mb, derr))
 		case m.Type == 4:
 			p.kalives++
-			p.log(fmt.Sprintf("TKeepalive %d 90", pc.id), fmt.Sprintf("c%d: KEEPALIVE", pc.id))
+			p.logT(fmt.Sprintf("TKeepalive %d 90", pc.id), fmt.Sprintf("c%d: KEEPALIVE", pc.id))
 			if p.wantHold == 0 {
 				p.fail("session-keepalive-with-hold-time-0", fmt.Sprintf("c%d: hold time 0 was configured (no keepalive timer), a KEEPALIVE arrived after the accepting one", pc.id))
 			}
@@ -527,7 +576,7 @@ func sRunSchedule(t *testing.T, out *vOut, id int, r *rand.Rand, special string)
 	if ibgp {
 		peerASN = myASN
 	}
-	p := &sPeer{t: t, ln: ln, myASN: myASN, ibgp: ibgp, closedAt: -1, slow: special == "asn65536", lastCap: -1, openSent: make(chan int, 64),
+	p := &sPeer{t: t, ln: ln, myASN: myASN, ibgp: ibgp, closedAt: -1, slow: special == "asn65536", lastCap: -1, openSent: make(chan int, 64), t0: time.Now(),
 		def: sConnScript{asn: peerASN, as4: as4, dropAfter: -1}}
 	if special == "" && myASN <= 65535 {
 		p.capRand = rand.New(rand.NewSource(r.Int63()))
@@ -580,6 +629,9 @@ func sRunSchedule(t *testing.T, out *vOut, id int, r *rand.Rand, special string)
 				out.Stat("sess:drop-mid-message", 1)
 			}
 		}
+		if sc.asn == peerASN && !sc.dropInHS {
+			wrongUsed = false // a failure right after a success costs no backoff
+		}
 		p.scripts = append(p.scripts, sc)
 	}
 	go p.serve()
@@ -593,6 +645,8 @@ func sRunSchedule(t *testing.T, out *vOut, id int, r *rand.Rand, special string)
 		ht = 0
 	case "hold:nil":
 		ht = -1
+	case "keepalive:3s":
+		ht = 3 * time.Second
 	}
 	var htp *time.Duration
 	holdCoq := cNone
@@ -778,6 +832,17 @@ func sRunSchedule(t *testing.T, out *vOut, id int, r *rand.Rand, special string)
 		pause()
 	}
 
+	if special == "keepalive:3s" {
+		// hold time 3 s (peer: 90 s): a KEEPALIVE every second once established
+		waitFor(func() bool { return p.cur != nil && p.cur.estab })
+		time.Sleep(2300 * time.Millisecond)
+		p.mu.Lock()
+		if p.kalives == 0 {
+			p.fail("session-no-keepalive", "hold time 3 s negotiated, no KEEPALIVE within 2.3 s of the session being established")
+		}
+		p.mu.Unlock()
+		out.Stat("sess:keepalive-schedule-keepalives", p.kalives)
+	}
 	if special == "asn65536" {
 		// give the session time to show what it does with a 2-octet-only peer
 		time.Sleep(400 * time.Millisecond)
@@ -851,6 +916,9 @@ func sRunSchedule(t *testing.T, out *vOut, id int, r *rand.Rand, special string)
 		okSince := time.Time{}
 		for {
 			p.mu.Lock()
+			for _, c := range p.conns { // no scripted fault any more, also on a connection whose handshake was still running
+				c.arm = -1
+			}
 			pc := p.cur
 			good := pc != nil && pc.estab && !pc.gone && !pc.dropped && pc.arm < 0 && sEq(pc.table, want)
 			p.mu.Unlock()
@@ -904,6 +972,7 @@ func sRunSchedule(t *testing.T, out *vOut, id int, r *rand.Rand, special string)
 	if special == "close-in-backoff" {
 		out.Stat("sess:close-in-backoff-refusals", p.refused)
 	}
+	out.Stat("sess:failed-attempt-after-a-success", p.failAfterOK)
 	out.Stat("sess:cap-flip-on-off", p.flipOnOff)
 	out.Stat("sess:cap-flip-off-on", p.flipOffOn)
 	out.Stat("sess:ebgp-updates-with-connection-width", p.widthOK)
@@ -989,9 +1058,42 @@ func sStepCase(out *vOut, id int, r *rand.Rand) {
 		defer c2.Close()
 		s.conn = c1
 	}
-	opn := r.Intn(4)
+	opn := r.Intn(6)
 	op, opH := "OAbort", "abort"
 	switch opn {
+	case 4: // consumeBGP(conn) returns (peer closed): conn is the session's connection or a stale one
+		cur := pre.conn && r.Intn(2) == 0
+		a, b := net.Pipe()
+		b.Close()
+		rc := io.ReadCloser(a)
+		if cur {
+			a.Close()
+			s.mu.Lock()
+			c2 := s.conn
+			s.mu.Unlock()
+			// the session's own connection, its peer end closed
+			rc = c2.(io.ReadCloser)
+			c2.Close()
+		}
+		s.consumeBGP(rc)
+		op, opH = "(OReaderDrop "+cBool(cur)+")", fmt.Sprintf("readerdrop current=%v", cur)
+	case 5: // sendKeepalive on a working / broken connection
+		ok := r.Intn(2) == 0
+		if pre.conn {
+			a, b := net.Pipe()
+			s.conn = a
+			if ok {
+				go io.Copy(io.Discard, b)
+				defer b.Close()
+			} else {
+				b.Close()
+			}
+		}
+		err := s.sendKeepalive()
+		if pre.closed != (err == errClosed) {
+			out.Fail("session-keepalive-closed-status", fmt.Sprintf("sendKeepalive on closed=%v returned %v", pre.closed, err), nil)
+		}
+		op, opH = "(OKeepalive "+cBool(ok)+")", fmt.Sprintf("keepalive ok=%v", ok)
 	case 0:
 		s.mu.Lock()
 		s.abort()
@@ -1212,18 +1314,27 @@ func sPipeSchedule(out *vOut, id int, r *rand.Rand) {
 	time.Sleep(time.Duration(1+r.Intn(5)) * time.Millisecond) // the Set is now waiting for / has taken the lock
 	want = last
 	// 4. the peer resumes reading; the connection is left alone
-	quiet := 0
-	for dl := time.Now().Add(4 * time.Second); time.Now().Before(dl) && quiet < 3; {
-		if readOne(50 * time.Millisecond) {
-			quiet = 0
+	// quiescence is decided from the session, not from timing: all Set() calls have
+	// returned, the sender is outside its critical section (TryLock) with nothing
+	// pending, and (the pipe being synchronous) nothing is in flight
+	for dl := time.Now().Add(6 * time.Second); time.Now().Before(dl); {
+		if readOne(20 * time.Millisecond) {
 			continue
 		}
 		select {
 		case <-setsDone:
-			quiet++
 		default:
+			continue
+		}
+		if s.mu.TryLock() {
+			idle := s.new == nil
+			s.mu.Unlock()
+			if idle {
+				break
+			}
 		}
 	}
+	go io.Copy(io.Discard, c2) // from here on never block the sender (Close() needs its lock)
 	<-setsDone
 	mu.Lock()
 	if !sEq(table, want) {
@@ -1232,7 +1343,6 @@ func sPipeSchedule(out *vOut, id int, r *rand.Rand) {
 	mu.Unlock()
 	lg(fmt.Sprintf("TFinal 1 %s", sTableStr(table)), fmt.Sprintf("end: table %v", table))
 	s.Close()
-	go io.Copy(io.Discard, c2)
 	select {
 	case <-done:
 	case <-time.After(2 * time.Second):
@@ -1249,6 +1359,29 @@ func sPipeSchedule(out *vOut, id int, r *rand.Rand) {
 	coq := fmt.Sprintf("STrace %d {| my_asn := %d; peer_asn := %d; universe := %s; cfg_hold := %s |} [%s]",
 		id, myASN, peerASN, cListN([]int{0, 1, 2, 3, 4, 5}), cSome(cNi(90)), strings.Join(trace, "; "))
 	out.Case(id, "schedule:pipe", coq, hm)
+}
+
+// backoff.Duration()/Reset() sequences against the model's bo_run
+func sBackoffCase(out *vOut, id int, r *rand.Rand) {
+	var b backoff
+	n := 1 + r.Intn(14)
+	ops := make([]string, n)
+	var obs []string
+	var h []string
+	for i := range ops {
+		if r.Intn(5) > 0 {
+			d := b.Duration()
+			ops[i] = "true"
+			obs = append(obs, cNi(int(d/time.Millisecond)))
+			h = append(h, fmt.Sprintf("Duration()=%v", d))
+		} else {
+			b.Reset()
+			ops[i] = "false"
+			h = append(h, "Reset()")
+		}
+	}
+	out.Stat("step:backoff", 1)
+	out.Case(id, "step:backoff", fmt.Sprintf("SBackoff %d %s %s", id, cList(ops), cList(obs)), map[string]any{"trace": h})
 }
 
 // the peer changes its capabilities between two connections of one session
@@ -1283,6 +1416,9 @@ func TestVerifSess(t *testing.T) {
 	for i := 0; i < 60+n; i++ {
 		sStepCase(out, 100000+i, r)
 	}
+	for i := 0; i < 10+n/3; i++ {
+		sBackoffCase(out, 200000+i, r)
+	}
 	sRunSchedule(t, out, 1, rand.New(rand.NewSource(r.Int63())), "asn65536")
 	par := vEnvInt("VERIF_PAR", 4)
 	var wg sync.WaitGroup
@@ -1294,15 +1430,19 @@ func TestVerifSess(t *testing.T) {
 		}()
 	}
 	bg(2, "close-in-backoff", r.Int63())
-	next := 3
+	bg(3, "keepalive:3s", r.Int63())
+	next := 4
 	for _, sp := range sCloseHS {
 		bg(next, sp, r.Int63())
 		next++
 	}
+	psem := make(chan struct{}, par)
 	for k := 0; k < 4+n/5; k++ {
 		wg.Add(1)
 		go func(id int, seed int64) {
 			defer wg.Done()
+			psem <- struct{}{}
+			defer func() { <-psem }()
 			sPipeSchedule(out, id, rand.New(rand.NewSource(seed)))
 		}(next, r.Int63())
 		next++
